@@ -64,6 +64,9 @@ def write(prop, tier, seed, rows, concrete_rows, lemma_rows, violations, known_h
         'wall_s': round(wall, 2),
         'violations': len(violations),
     }
-    os.makedirs(os.path.join(VERIF, 'evidence'), exist_ok=True)
-    with open(os.path.join(VERIF, 'evidence', '%s.json' % prop), 'w') as handle:
+    directory = os.path.join(VERIF, 'evidence')
+    if os.environ.get('SYMCHECK_TAG'):
+        directory = os.path.join(VERIF, 'build', os.environ['SYMCHECK_TAG'], 'evidence')
+    os.makedirs(directory, exist_ok=True)
+    with open(os.path.join(directory, '%s.json' % prop), 'w') as handle:
         json.dump(doc, handle, indent=1, default=repr)
